@@ -182,6 +182,15 @@ func VP_C15_Crash() {
 	zzvp.Assert(okBranches, "each branch points to the commit it named before or to the one the command was installing")
 	if hadCommit {
 		zzvp.Assert(vpUsable(), "every read-only command still loads the repository after the crash")
+		// debris of the interrupted command (temporary files) must not leak into what later commands write
+		for _, f := range [][]string{{"switch", "dev"}, {"switch", "main"}, {"switch", "dev"}} {
+			r2 := zzvp.Run(f...)
+			zzvp.Assert(r2.Exit == 0 || r2.Exit == 1, "commands after the crash do not crash")
+			if r2.Exit == 0 {
+				zzvp.Assert(vpHeadRef() == f[1], "a switch that succeeds after the crash makes HEAD name exactly that branch")
+			}
+		}
+		zzvp.Assert(vpFsck() == "" && vpUsable(), "after later commands HEAD still names a branch that holds a complete commit and every read-only command loads the repository")
 	} else {
 		lf := zzvp.Run("ls-files")
 		zzvp.Assert(lf.Exit == 0, "the staging area still loads after the crash")
